@@ -29,6 +29,9 @@ def runLedger (c : Case) : Res :=
     -- the C02 rule is only evaluated on complete runs (a failed run may end inside a window)
     let os := if os.isEmpty && p.implOutcome == "ok" && r.tags.all (· != "near=1") then
                 sflOracle p.dflt p.init (alignedRows p.txs p.impls) else os
+    -- a rejection must have one of the reasons C04 lists
+    let os := if os.isEmpty && p.implOutcome == "err" && r.tags.all (· != "near=1") then
+                rejectOracle p.dflt p.init p.txs p.impls p.implMsg else os
     -- a run rejected for the specified-amount tolerance
     let os := if os.isEmpty && p.implOutcome == "err" && (p.implMsg.splitOn "max allowed discrepancy").length > 1 then
                 let done := alignedRows p.txs p.impls
